@@ -57,6 +57,23 @@ pub fn exec(op: &str, a: &[String]) -> Option<Reply> {
             };
             Some(Reply { obs: vec![dump, errs], reply: show_run(&r) })
         }
+        ("o.c16", [src, event, metadata, faults]) => {
+            // observations: compiled tree, reported queries, reported assignments, access log of a run
+            let srct = String::from_utf8(unhex(src)?).ok()?;
+            let program = vrlrun::compile(&srct).ok()?;
+            let dump = vrl::compiler::verif::dump_program(&program);
+            let show = |ps: &Vec<vrl::path::OwnedTargetPath>| {
+                let v: Vec<String> = ps
+                    .iter()
+                    .map(|p| format!("{}:{}", if p.prefix == vrl::path::PathPrefix::Event { "e" } else { "m" }, show_path(&p.path)))
+                    .collect();
+                if v.is_empty() { "-".to_string() } else { v.join(" | ") }
+            };
+            let info = program.info();
+            let r = vrlrun::run_program(&program, parse_value(event)?, parse_value(metadata)?, parse_faults(faults)?, &TimeZone::Named(chrono_tz::UTC));
+            let log = if r.log.is_empty() { "-".to_string() } else { r.log.join(" | ") };
+            Some(Reply::oracle(vec![dump, show(&info.target_queries), show(&info.target_assignments), log]))
+        }
         (o, [src, event, metadata, faults]) if o.starts_with("o.c") => {
             // Spec oracle: same run; the observed outcome/event/metadata/variables are observations
             let r = exec("lang.run", &[src.clone(), event.clone(), metadata.clone(), faults.clone()])?;
